@@ -11,7 +11,11 @@ from ..front import ClassInfo
 from ..memabs import MemInterp, RAW
 from ..regexec import RegExec
 from ..tri import SELF, brief_bytes
-from .. import memmap
+from .. import memmap, paths, pred
+from ..denote import Denoter, Poly, num, show as dshow, _before_nul
+from ..inline import acopy
+from ..lanes import Lin
+from ..normal import normalise
 
 LOC = "dali.memory.location"
 RW = {"RAM_RW", "NVM_RW", "NVM_RW_L", "NVM_RW_P"}
@@ -55,6 +59,7 @@ def check(run, repo, world):
     masks = _check_masks(run, repo, world, folder, values)
     _check_decode(run, repo, world, folder, values, masks, spec)
     _check_inverse(run, repo, world, values)
+    run.attempt(_check_decode_forms, run, repo, world, values)
     _check_from_list_order(run, repo, world)
     _check_registration_guards(run, repo, world)
     # string / number -> raw conversions (shared with C10: R-MEMW-RAW)
@@ -442,18 +447,320 @@ def _check_inverse(run, repo, world, values):
                        "decoder": dec.qname if dec else None,
                        "encoder": enc.qname if enc else None})
     run.floor("writable memory values", nw, 20)
-    nv = world.cls(LOC + ".NumericValue")
-    mod = repo.mod(LOC)
-    dsrc = [unparse(n.value) for n in ast.walk(
-        nv.methods["raw_to_value"][1]) if isinstance(n, ast.Return)]
-    esrc = [unparse(n.value) for n in ast.walk(
-        nv.methods["value_to_raw"][1]) if isinstance(n, ast.Return)]
-    run.ob("R-INVERSE", LOC + ".NumericValue#codec-pair",
-           dsrc == ["int.from_bytes(raw, 'big', signed=cls.signed)"] and
-           "value.to_bytes(len(cls.locations), 'big', signed=cls.signed)"
-           in esrc,
-           "NumericValue decoder %s / encoder %s must agree on byte order "
-           "and sign" % (dsrc, esrc), where(mod, nv.node))
+    # byte order and sign of the numeric codec pair: the decoder by
+    # R-DECODE-FORM, the encoder by R-MEMW-RAW (both on formulas)
+
+
+# ---------------------------------------------------------------------------
+# documented encodings as formulas (denote.py): expected outcome -> condition
+def _be(lo, hi, signed):
+    return Poly.atom("be[%s:%s;%s]" % (lo, hi, signed))
+
+
+LDT_NAMES = ["not specified", "Type I", "Type II", "Type III", "Type IV",
+             "Type V"]          # DiiA part 251 Table 1, 0x23; 6..254 reserved
+
+
+def _expected_forms(family, definer=None):
+    """[(denotation, condition tree over the symbols n (= len(raw)) and the
+    be[..] atoms)] for the decoder family (or for a value class that
+    overrides the decoder: CCT, LightDistributionType)."""
+    T = ("and", [])
+    if definer == "dali.memory.oem.CCT":
+        p209 = ("atom", ("p", "fffe == raw", True))
+        return [(("str", ("lit", "Part 209 implemented")), p209),
+                (num(_be("0", "n", "cls.signed")), ("not", p209))]
+    if definer == "dali.memory.oem.LightDistributionType":
+        b = "be[0:1;False]"
+        out = []
+        for i, name in enumerate(LDT_NAMES):
+            out.append((("str", ("lit", name)), ("and", [
+                ("atom", ("le", b, "0", -i)), ("atom", ("le", "0", b, i))])))
+        out.append((("str", ("lit", "reserved")), ("or", [
+            ("atom", ("le", b, "0", 1)),
+            ("atom", ("le", "0", b, len(LDT_NAMES)))])))
+        return out
+    n_is_1 = ("and", [("atom", ("le", "n", "0", -1)),
+                      ("atom", ("le", "0", "n", 1))])
+
+    def eq(sym, k):
+        return ("and", [("atom", ("le", sym, "0", -k)),
+                        ("atom", ("le", "0", sym, k))])
+    if family == "NumericValue":
+        return [(num(_be("0", "n", "cls.signed")), T)]
+    if family == "FixedScaleNumericValue":
+        return [(num(Poly.atom("cls.scaling_factor") *
+                     _be("0", "n", "cls.signed")), T)]
+    if family == "TemperatureValue":
+        return [(num(_be("0", "n", "False") - Poly.atom("cls.offset")), T)]
+    if family == "ScaledNumericValue":
+        e = _be("0", "1", "True")
+        return [(num(_be("1", "n", "False") *
+                     Poly.atom("pow10d(%r)" % e)), T)]
+    if family == "BinaryValue":
+        b = "be[0:1;False]"
+        return [(("bool", True), eq(b, 1)),
+                (("bool", False), ("not", eq(b, 1)))]
+    if family == "VersionNumberValue":
+        b1 = "be[0:1;False]"
+        v = Poly.atom(b1)
+        two = ("str", ("fmt", (num(Poly.atom("fdiv(%r,4)" % v)),
+                               ("lit", "."),
+                               num(Poly.atom("mod(%r,4)" % v)))))
+        return [(("str", ("lit", "not implemented")),
+                 ("and", [n_is_1, eq(b1, 255)])),
+                (two, ("and", [n_is_1, ("not", eq(b1, 255))])),
+                (("str", ("join", ".", "raw")), ("not", n_is_1))]
+    if family == "StringValue":
+        asc = ("atom", ("p", "cstring.isascii()", True))
+        return {"alternatives": [
+            [(("try", ("str", ("cstring", "ascii")),
+               (("UnicodeDecodeError", ("flag", "Invalid")),)), T)],
+            [(("str", ("cstring", "ascii")), asc),
+             (("flag", "Invalid"), ("not", asc))]]}
+    if family == "MemoryValue":
+        return [(("rawslice", "0", "n"), T)]
+    return None
+
+
+def _const_bytes(e):
+    if isinstance(e, ast.Constant) and isinstance(e.value, bytes):
+        return e.value
+    if isinstance(e, ast.Call) and unparse(e.func) == "bytes" and len(
+            e.args) == 1 and isinstance(e.args[0], (ast.List, ast.Tuple)) \
+            and all(isinstance(x, ast.Constant) and isinstance(x.value, int)
+                    and 0 <= x.value < 256 for x in e.args[0].elts):
+        return bytes(x.value for x in e.args[0].elts)
+    if isinstance(e, ast.Call) and unparse(e.func) == "bytes.fromhex" and \
+            len(e.args) == 1 and isinstance(e.args[0], ast.Constant):
+        try:
+            return bytes.fromhex(e.args[0].value)
+        except (ValueError, TypeError):
+            return None
+    return None
+
+
+def _decode_cases(world, cls, name, unsigned, depth=0):
+    """[(denotation, DNF)] of cls's effective `name` classmethod."""
+    r = cls.lookup(name)
+    if r is None or depth > 4:
+        return None
+    definer = r[0]
+    fn = definer.methods[name][1]
+    fn = normalise(fn, world, definer.mod, definer, aliases=False)
+    params = [a.arg for a in fn.args.args]
+    if len(params) != 2:
+        return None
+    raw = params[1]
+    mro = [k for k in definer.mro if isinstance(k, ClassInfo)]
+    nxt = None
+    for k in mro[1:]:
+        if name in k.methods:
+            nxt = k
+            break
+
+    def super_call(meth, args):
+        if meth != name or nxt is None or len(args) != 1 or not (
+                isinstance(args[0], ast.Name) and args[0].id == raw):
+            return None
+        sub = _decode_cases(world, nxt, name, unsigned, depth + 1)
+        if sub is None or len(sub) != 1:
+            return None
+        return sub[0][0]
+
+    body = [s for s in fn.body if not (isinstance(s, ast.Expr) and isinstance(
+        s.value, ast.Constant))]
+    if len(body) == 1 and isinstance(body[0], ast.Try) and \
+            not body[0].finalbody and not body[0].orelse:
+        t = body[0]
+        D = Denoter(raw, super_call)
+        if len(t.body) == 1 and isinstance(t.body[0], ast.Return) and all(
+                len(h.body) == 1 and isinstance(h.body[0], ast.Return) and
+                h.type is not None and h.name is None for h in t.handlers):
+            hs = tuple((unparse(h.type), D.den(h.body[0].value))
+                       for h in t.handlers)
+            d = ("try", D.den(t.body[0].value), hs)
+            return [(d, pred.dnf(("and", [])), repr(d))]
+        return None
+    tmpfn = acopy(fn)
+    tmpfn.body = body
+    cases = {}
+    order = []
+    for pth in paths.summaries(tmpfn):
+        # a path that fixes the length reads `raw` as that many bytes
+        nfix = None
+        for (t, b) in pth.conds:
+            if isinstance(t, ast.Compare) and len(t.ops) == 1 and \
+                    isinstance(t.ops[0], ast.Eq if b else ast.NotEq):
+                l, r_ = unparse(t.left), t.comparators[0]
+                if l == "len(%s)" % raw and isinstance(r_, ast.Constant) \
+                        and isinstance(r_.value, int):
+                    nfix = r_.value
+        D = Denoter(raw, super_call)
+
+        def canon(d):
+            txt = repr(d)
+            if nfix is not None:
+                txt = txt.replace(":n;", ":%d;" % nfix)
+            if unsigned:
+                txt = txt.replace(";cls.signed]", ";False]")
+            return txt
+
+        def lin(e):
+            d = D.den(e)
+            if d[0] != "num":
+                return None
+            la = d[1].linear_atoms()
+            if la is None:
+                return None
+            c, k = la
+            out = Lin.const(k)
+            for a, v in c.items():
+                a2 = canon(("x", a))[7:-2] if False else a
+                if nfix is not None:
+                    a2 = a2.replace(":n;", ":%d;" % nfix)
+                if unsigned:
+                    a2 = a2.replace(";cls.signed]", ";False]")
+                term = Lin.sym(a2)
+                for _ in range(abs(v)):
+                    out = out + term if v > 0 else out - term
+            return out
+        def prop(e):
+            if isinstance(e, ast.Name) and e.id == raw:
+                return "raw"
+            b = _const_bytes(e)
+            if b is not None:
+                return b.hex()
+            if isinstance(e, ast.Call) and isinstance(
+                    e.func, ast.Attribute) and e.func.attr == "isascii" \
+                    and not e.args and _before_nul(e.func.value, raw):
+                return "cstring.isascii()"
+            return None
+        P = pred.Parser(lin, prop)
+        trees = []
+        for (t, b) in pth.conds:
+            tr = P.tree(t)
+            trees.append(tr if b else ("not", tr))
+        cond = pred.dnf(("and", trees))
+        if not cond:
+            continue           # contradictory path
+        if pth.kind == "return" and isinstance(pth.expr, (
+                ast.Compare, ast.BoolOp)) or (isinstance(
+                    pth.expr, ast.UnaryOp) and isinstance(
+                        pth.expr.op, ast.Not)):
+            # a returned comparison: True on its region, False on the rest
+            tr = P.tree(pth.expr)
+            for (val, t2) in ((True, tr), (False, ("not", tr))):
+                c2 = pred.dnf(("and", trees + [t2]))
+                if c2:
+                    d = ("bool", val)
+                    key = canon(d)
+                    if key not in cases:
+                        cases[key] = [d, frozenset()]
+                        order.append(key)
+                    cases[key][1] = pred.union(cases[key][1], c2)
+            continue
+        if pth.kind == "return":
+            d = D.den(pth.expr) if pth.expr is not None else ("none",)
+        elif pth.kind == "raise":
+            d = ("raise", paths.exc_name(pth.expr))
+        else:
+            d = ("none",)
+        key = canon(d)
+        if key not in cases:
+            cases[key] = [d, frozenset()]
+            order.append(key)
+        cases[key][1] = pred.union(cases[key][1], cond)
+    return [(cases[k][0], cases[k][1], k) for k in order]
+
+
+def _check_decode_forms(run, repo, world, values):
+    run.rule("R-DECODE-FORM", "each decoder family computes its documented "
+             "formula: the path summaries of raw_to_value, read as algebraic "
+             "denotations of the raw bytes (big-endian / signedness / scale / "
+             "offset / version digits / C string), equal the transcribed "
+             "encoding case by case, under equivalent conditions")
+    groups = {}
+    for d in values:
+        dec = _definer(d.cls, "raw_to_value")
+        if dec is None or d.family is None:
+            continue
+        groups.setdefault((dec.qname, d.family), []).append(d)
+    n = 0
+    for (decq, family), ds in sorted(groups.items()):
+        dec = _definer(ds[0].cls, "raw_to_value")
+        mod = repo.mod(dec.mod)
+        exp = _expected_forms(family, decq)
+        if exp is None:
+            continue
+        n += 1
+        # NumericValue's contract includes `signed` (sign-aware decoding is
+        # part of the property); a version is never signed, so there a
+        # decoder may as well read the bytes unsigned
+        unsigned = family == "VersionNumberValue" and all(
+            not d.signed for d in ds)
+        try:
+            got = _decode_cases(world, dec, "raw_to_value", unsigned)
+        except (paths.Unsupported, pred.Unrecognised) as e:
+            raise AnalysisError("R-DECODE-FORM: %s.raw_to_value is outside "
+                                "the forms read: %s" % (decq, e))
+        if got is None:
+            raise AnalysisError("R-DECODE-FORM: cannot read %s.raw_to_value"
+                                % decq)
+        key = "%s#%s" % (decq, family)
+        alts = exp["alternatives"] if isinstance(exp, dict) else [exp]
+        best = None
+        for exp in alts:
+            problems = _match_forms(exp, got, unsigned, decq)
+            if best is None or len(problems) < len(best):
+                best = problems
+        problems = best
+        run.ob("R-DECODE-FORM", key, not problems, "; ".join(problems),
+               where(mod, dec.methods["raw_to_value"][1]),
+               sample={"rule": "R-DECODE-FORM", "decoder": decq,
+                       "cases": [[dshow(g[0]), pred.show(g[1]) or "always"]
+                                 for g in got]})
+    run.floor("decoder families", n, 7)
+
+
+def _match_forms(exp, got, unsigned, decq):
+    if True:
+        def canon_exp(d):
+            t = repr(d)
+            if unsigned:
+                t = t.replace(";cls.signed]", ";False]")
+            return t
+        gotmap = {g[2]: g for g in got}
+        problems = []
+        # the expected forms speak about 1-byte versions through be[0:1]
+        hyp = (("le", "0", "n", 1),)
+        for (d, condtree) in exp:
+            k = canon_exp(d)
+            want = pred.dnf(condtree)
+            g = gotmap.pop(k, None)
+            if g is None:
+                alt = [x for x in gotmap.values()]
+                problems.append("no path computes %s (when %s); found %s" % (
+                    dshow(d), pred.show(want) or "always",
+                    "; ".join("%s when %s" % (dshow(x[0]), pred.show(x[1])
+                                              or "always") for x in alt)
+                    or "nothing else"))
+                continue
+            eq, wit = pred.equivalent(g[1], want, hyp)
+            if not eq:
+                problems.append("%s is returned when %s, documented: when %s"
+                                % (dshow(d), pred.show(g[1]) or "always",
+                                   pred.show(want) or "always"))
+        for k, g in gotmap.items():
+            if any(pred.sat(c, hyp) for c in g[1]):
+                if g[0][0] == "opaque":
+                    raise AnalysisError(
+                        "R-DECODE-FORM: %s.raw_to_value computes `%s`, which "
+                        "is outside the expression forms read" % (
+                            decq, g[0][1]))
+                problems.append("undocumented outcome %s when %s" % (
+                    dshow(g[0]), pred.show(g[1]) or "always"))
+        return problems
 
 
 def _check_from_list_order(run, repo, world):
